@@ -214,11 +214,11 @@ func (t *traverser) start() {
 			return
 		}
 		if t.budget != nil {
-			t.budget.LinkBudget--
 			if t.budget.LinkBudget <= 0 {
 				t.writeDone(&traversal.ErrBudgetExceeded{BudgetKind: "link", Link: t.root})
 				return
 			}
+			t.budget.LinkBudget--
 		}
 		nd, err := t.linkSystem.Load(ipld.LinkContext{Ctx: t.ctx}, t.root, ns)
 		if err != nil {
